@@ -64,7 +64,19 @@ fn junk_item_of(rng: &mut Rng, serial: usize, kind: u64) -> String {
         }
         4 => {
             // switch whose branches all fail; conditional attributes on plain elements
-            let fail = *rng.pick(&[r#"requiredExtensions="none""#, r#"requiredExtensions="http://example.org/ext""#, r#"requiredFeatures="""#, r#"requiredFeatures="  ""#, r#"requiredFeatures="http://www.w3.org/TR/SVG11/feature#Bogus""#, r#"systemLanguage="xx""#, r#"systemLanguage="""#]);
+            // one failing test is enough, whatever passing tests stand next to it (in either order)
+            let pass = [r#"requiredFeatures="http://www.w3.org/TR/SVG11/feature#Shape""#, r#"systemLanguage="en""#, r#"requiredFeatures="http://www.w3.org/TR/SVG11/feature#BasicStructure http://www.w3.org/TR/SVG11/feature#Shape""#, r#"systemLanguage="xx, en""#];
+            let single = *rng.pick(&[r#"requiredExtensions="none""#, r#"requiredExtensions="http://example.org/ext""#, r#"requiredFeatures="""#, r#"requiredFeatures="  ""#, r#"requiredFeatures="http://www.w3.org/TR/SVG11/feature#Bogus""#, r#"systemLanguage="xx""#, r#"systemLanguage="""#, r#"requiredFeatures="http://www.w3.org/TR/SVG11/feature#Shape http://www.w3.org/TR/SVG11/feature#Bogus""#]);
+            let combined;
+            let fail: &str = if rng.chance(1, 2) {
+                single
+            } else {
+                let p = *rng.pick(&pass);
+                // the two tests must be different attributes
+                let f = if p.starts_with("requiredFeatures") { *rng.pick(&[r#"systemLanguage="xx""#, r#"requiredExtensions="none""#, r#"systemLanguage="""#]) } else { *rng.pick(&[r#"requiredFeatures="http://www.w3.org/TR/SVG11/feature#Bogus""#, r#"requiredExtensions="none""#, r#"requiredFeatures="""#]) };
+                combined = if rng.chance(1, 2) { format!("{p} {f}") } else { format!("{f} {p}") };
+                combined.as_str()
+            };
             match rng.below(3) {
                 0 => format!(r#"<switch><rect {fail} width="{}" height="500" {paint}/><g {fail}><circle r="30" {paint}/></g></switch>"#, big(rng)),
                 1 => format!(r#"<rect {fail} width="{}" height="500" {paint}/>"#, big(rng)),
@@ -278,6 +290,50 @@ pub fn search(tier: &str, seed: u64, s: &mut Search) {
         let (w, h) = (rng.range(20, 120) as u32, rng.range(20, 120) as u32);
         let svg = crate::gen::random_doc(&mut rng, crate::gen::Cfg::full(w, h));
         check(s, "generated", &svg.clone(), &svg, &o, &mut rng);
+    }
+    // ---- empty containers: a group, symbol instance, switch, clip path or mask that renders nothing keeps
+    // rendering nothing - and keeps its place in (or absence from) the tree - when non-rendered content is put
+    // inside it
+    let ne = (if tier == "thorough" { 1200 } else { 150 }) * mult;
+    for _ in 0..ne {
+        let slot = "@@";
+        let container = match rng.below(6) {
+            0 => format!(r#"<g id="layer1">{slot}</g>"#),
+            1 => format!(r#"<g>{slot}<g id="inner">{slot}</g></g>"#),
+            2 => format!(r#"<switch>{slot}</switch>"#),
+            3 => format!(r##"<g id="layer2" class="x">{slot}</g><use xlink:href="#layer2" x="5"/>"##),
+            4 => format!(r#"<svg x="3" y="3" width="20" height="20">{slot}</svg>"#),
+            _ => format!(r#"<a>{slot}</a>"#),
+        };
+        let around = match rng.below(4) {
+            0 => ("<g>".to_string(), "</g>".to_string()),
+            1 => (r##"<g filter="url(#hf)">"##.to_string(), "</g>".to_string()),
+            2 => (r##"<g opacity="0.5" clip-path="url(#hc)">"##.to_string(), "</g>".to_string()),
+            _ => (String::new(), String::new()),
+        };
+        let host = format!(
+            r##"<svg xmlns="http://www.w3.org/2000/svg" xmlns:xlink="http://www.w3.org/1999/xlink" width="120" height="120"><defs><filter id="hf" x="-0.1" y="-0.1" width="1.2" height="1.2"><feFlood flood-color="#0a0" flood-opacity="0.4"/><feComposite in="SourceGraphic" operator="over"/></filter><clipPath id="hc"><rect width="110" height="110"/></clipPath></defs>{}<rect x="{}" y="{}" width="30" height="30" fill="#08f"/>{container}<circle cx="90" cy="90" r="12" fill="#f80"/>{}</svg>"##,
+            around.0, rng.range(30, 70), rng.range(30, 70), around.1
+        );
+        let empty = host.replace(slot, "");
+        let Some((ta, pa)) = tree_and_pixels(&empty, &o) else { continue };
+        // element-shaped, non-rendered content only (kinds 2..)
+        let kind = 2 + rng.below(11);
+        let junk = junk_item_of(&mut rng, 0, kind);
+        let filled = host.replace(slot, &junk);
+        s.case("empty-container", &empty, ta.len() > 120);
+        match tree_and_pixels(&filled, &o) {
+            None => s.finding("oracle:junk:in-empty-container:rejected-or-panicked", "non-rendered content inside an empty container makes the document unparsable", &filled),
+            Some((tb, pb)) => {
+                if ta != tb {
+                    s.finding("oracle:junk:in-empty-container:tree-changed", "non-rendered content inside a container that renders nothing changes the tree", &filled);
+                } else if let (Some(pa), Some(pb)) = (&pa, &pb) {
+                    if pa.data() != pb.data() {
+                        s.finding("oracle:junk:in-empty-container:pixels-changed", "non-rendered content inside a container that renders nothing changes the pixels", &filled);
+                    }
+                }
+            }
+        }
     }
     // ---- style sheets with structural selectors (:first-child, a + b, a > b, descendant): comments, processing
     // instructions and white space are not elements and must not change what the selectors match
